@@ -1,3 +1,4 @@
+import os
 """Concretisation of z3 models into JSON trees and into real /repo objects; native replay of a
 failed obligation on the real function (run under /venv/bin/python against /repo's working tree)."""
 import importlib
@@ -139,7 +140,11 @@ def map_entries(R, e, kkind, vkind, model=None):
 
 
 # --------------------------------------------------------------------------- JSON tree -> real objects
-def setup_repo_path(repo='/repo'):
+def setup_repo_path(repo=None):
+    # the tree the functions are imported from natively is the tree whose source is verified (PYVC_REPO: a scratch
+    # worktree when seeded changes are re-evaluated without touching /repo)
+    if repo is None:
+        repo = os.environ.get('PYVC_REPO', '/repo')
     if repo not in sys.path:
         sys.path.insert(0, repo)
     v = '/verif'
